@@ -44,6 +44,30 @@ CLAIMED["C17"] = dict(
     design="§4 C17",
 )
 
+CLAIMED["C16"] = dict(
+    text="Lean 4 theorems about the model of ReuseTOML.from_dict / AnnotationsItem.from_dict with the attrs converters and validators, "
+         "in which Python's own failures (iterating a non-iterable, .get on a non-mapping, hashing a list) are explicit crash outcomes: "
+         "C16_toml_total / C16_toml_never_crash (a REUSE.toml document whose keys hold values of any type, shape and depth validates to a "
+         "value or to a parse error carrying the file name, never to a crash), C16_toml_file / C16_exit / C16_exit_dep5 (unreadable, "
+         "undecodable, syntactically broken or wrongly shaped configuration => usage error, exit 2, message names the file), "
+         "C16_project_cases_partial / _total_partial / _end_partial / C16_loaded_all_valid_partial (any number of nested REUSE.toml files: "
+         "the first broken one is named, a loaded project has no broken file), C16_conflict (dep5 + REUSE.toml => exit 2 naming both), "
+         "C16_per_file / _any_position / C16_expr_error_lacks_info / C16_lint_end (lists of covered files of any length: an exception for "
+         "one file is exactly one read error at any position, every other file keeps its own report, unparseable expression => lacking "
+         "information, exit 1), C16_annotate_per_file / _end / _unreadable (undecodable or vanished path = failed file, others annotated, "
+         "exit 1). Tied to the code by a shape-complete REUSE.toml enumeration (each key x each TOML type x nesting, both spellings) and "
+         "random value trees through the real from_toml, and by whole projects through the real CLI for every sub-command.",
+    note="Partial: project loading assumes the files in LICENSES/ resolve to distinct identifiers (duplicate => RuntimeError traceback, "
+         "known finding with proved witness). tomlkit, python-debian, the UTF-8 codec and license-expression are oracles of the model "
+         "(their outcome classes are enumerated inputs; a byte-level stream checks they raise nothing else). Permission-denied reads "
+         "cannot be provoked as root: represented by vanishing files; BdbQuit/KeyboardInterrupt are outside the model. The theorems hold "
+         "for the code with fixes/c16-config-shapes-and-annotate-read.diff applied; on the unrepaired tree the check reports the "
+         "violations (witness theorems C16_witness_* show the crash outcomes on the unrepaired model).",
+    technique="Lean 4 proof (totality of validation over a nested inductive of TOML values with explicit crash outcomes; list induction "
+              "for the per-file loops) + exhaustive shape enumeration and end-to-end CLI differential",
+    design="§4 C16",
+)
+
 NOT_YET = {}
 
 
